@@ -126,11 +126,14 @@ def small_core(r, seed, tier, model_ok):
         out = []
         if n == 1:
             out += [[E(k)] for k in lits]
-            if depth > 0: out += [[E(0), "ㅇ"]]                       # funref 0 (self)
+            if depth > 0: out += [[E(0), "ㅇ"], [E(-1), "ㅇ"]]          # funref 0 (self), funref -1 (outermost)
+            if depth > 1: out += [[E(1), "ㅇ"]]                       # funref 1 (the enclosing function)
         if n >= 2:
             for b in terms(n - 1, depth + 1): out.append(b + ["ㅎ"])       # fundef
             if depth > 0:
-                for a in terms(n - 1, depth): out.append(a + ["ㅇ" + E(0)])   # argref a 0
+                for a in terms(n - 1, depth):
+                    out.append(a + ["ㅇ" + E(0)])                              # argref a 0
+                    if depth > 1: out.append(a + ["ㅇ" + E(1)])                # argument of the enclosing function
         if n >= 2:
             for k in range(0, 3):                                         # call with k args: 1 + f + args
                 rest = n - 1
